@@ -1,17 +1,20 @@
 #!/bin/bash
-# usage: ./mut.sh <file-in-repo> <python-regex-old> <new> <Cxx> [tier]   (development helper: apply a one-line mutant, run a check, restore)
+# usage: ./mut.sh <file-in-repo> <old-text> <new-text> <Cxx> [tier]
+# development helper: applies a one-line mutant to a scratch COPY of /repo (so that /repo itself is never touched),
+# points the check at it with VERIF_REPO, and removes the copy.  Evidence of the real tree is preserved.
 f=$1; old=$2; new=$3; prop=$4; tier=${5:-quick}
-cd /repo && git diff --quiet || { echo "repo dirty"; exit 9; }
-python3 - "$f" "$old" "$new" <<'PY'
-import sys,re
+wt=/tmp/mutrepo_$$
+rm -rf $wt; mkdir -p $wt && (cd /repo && git archive HEAD | tar -x -C $wt) || exit 8
+python3 - "$wt/$f" "$old" "$new" <<'PY'
+import sys
 f,old,new=sys.argv[1:4]
-s=open('/repo/'+f).read()
+s=open(f).read()
 n=s.count(old)
 if n!=1: print("pattern count",n); sys.exit(3)
-open('/repo/'+f,'w').write(s.replace(old,new))
+open(f,'w').write(s.replace(old,new))
 PY
 rc=$?
-cp /verif/evidence/$prop.json /tmp/ev_$prop.bak 2>/dev/null
-if [ $rc -eq 0 ]; then (cd /verif && timeout 1800 ./check $prop --tier $tier | tail -5; echo "exit=${PIPESTATUS[0]}"); fi
-cp /tmp/ev_$prop.bak /verif/evidence/$prop.json 2>/dev/null; rm -f /tmp/ev_$prop.bak
-cd /repo && git checkout -- . 
+cp /verif/evidence/$prop.json /tmp/ev_$prop.$$.bak 2>/dev/null
+if [ $rc -eq 0 ]; then (cd /verif && VERIF_REPO=$wt timeout 1800 ./check $prop --tier $tier | tail -5; echo "exit=${PIPESTATUS[0]}"); fi
+cp /tmp/ev_$prop.$$.bak /verif/evidence/$prop.json 2>/dev/null; rm -f /tmp/ev_$prop.$$.bak
+rm -rf $wt
